@@ -45,6 +45,8 @@ class ReconnH(explore.Harness):
                 conn = next(c for c in self.net.conns if getattr(c, "session", None) is sess)
                 self.loop.call_soon(conn.peer_reset if sess.close_on_subscribe == "reset" else conn.peer_close)
                 return None
+            if getattr(self, "mute_app", False) and b'"ev"' not in body:
+                return None  # the accessory is busy / hung: application writes get no answer (for now)
             if self.garble_next and b'"ev"' not in body:
                 # a 2xx reply whose body is not what it claims to be (not JSON / not UTF-8): the controller gives the connection up
                 kind, self.garble_next = self.garble_next, None
@@ -224,6 +226,10 @@ class ReconnH(explore.Harness):
                 for second in ("zc-same", "ensure"):
                     for k in (0, 1, 2):
                         m.append(f"zc-same+{second}@{k}")
+            elif t == "app-req":
+                # an application write that the accessory leaves unanswered: it sits on the wire (or queues behind the one that does)
+                if self.pairing.is_connected and len(self.app_tasks) < 2:
+                    m.append(t)
             elif t.startswith("put-garbled"):
                 # an application write on the idle, connected session that the accessory answers with a garbled 2xx reply
                 if self._current_conn() is not None and self.pairing.is_connected and not self.garble_next and len(self.app_tasks) < 2:
@@ -360,6 +366,10 @@ class ReconnH(explore.Harness):
                 self.pairing._async_description_update(mk_description(self.cur_hosts, port=self.cur_port, s=len(self.trigger_times) + 1))
             else:
                 self._start_ensure("ensure")
+        elif k == "app-req":
+            self.mute_app = True
+            self.trigger_times.append((now, "app-req"))
+            self.app_tasks.append(self.loop.create_task(self.pairing.put_characteristics([(1, 9, True)])))
         elif k.startswith("put-garbled"):
             self.garble_next = k.partition(":")[2] or "not-json"
             self.env_marks.append((now, "drop"))  # for the schedule oracle this is a loss of the connection at this instant
@@ -574,6 +584,9 @@ class ReconnH(explore.Harness):
         for c in self.callers:
             if not c["task"].done():
                 out.append(("c10:waiting-caller-pending-at-horizon", {"kind": c["kind"]}))
+        if any(not t.done() for t in self.app_tasks):
+            # 130 s after the last event: longer than every timer of the library (30 s per request, 10 s per wait for the connection)
+            out.append(("c10:application-request-pending-at-horizon", {"pending": sum(1 for t in self.app_tasks if not t.done()), "t": self.loop.time()}))
         # "closing a pairing completes": 130 s of virtual time (every timer of the library is shorter) after the last event, a close() / shutdown()
         # that is still pending will never return
         for t in self.close_tasks:
@@ -604,7 +617,8 @@ class ReconnH(explore.Harness):
                     break
         # gaps between end of a failed attempt and the next start, per connector run, untriggered only
         trig = sorted(t for t, _ in self.trigger_times)
-        marks = sorted(self.trigger_times + self.env_marks + ([(self.closed_at, "close")] if self.closed_at is not None else []))
+        # (a caller asking for the connection is no reason to hurry: only announcements, drops and close excuse a gap from the back-off rule)
+        marks = sorted([m for m in self.trigger_times if not m[1].startswith(("ensure", "cancel-ensure", "app-req"))] + self.env_marks + ([(self.closed_at, "close")] if self.closed_at is not None else []))
         bounds = [c[2] for c in self.connector_ids[1:]] + [len(atts)]
         start = self.connector_ids[0][2] if self.connector_ids else 0
         for b in bounds:
@@ -615,11 +629,31 @@ class ReconnH(explore.Harness):
                 if x["end"] is None:
                     continue
                 g = y["t"] - x["end"]
+                ocx = x["outcome"]
+                if ocx and ocx[0] == "ok" and getattr(getattr(self.net.conns[ocx[2]], "session", None), "verified", False):
+                    gaps.append(None)  # that attempt SUCCEEDED: however long the session lived, what follows its end is not a retry delay
+                    continue
                 if any(x["end"] - 1e-9 <= t <= y["t"] + 1e-9 for t, _ in marks):
                     gaps.append(None)  # a trigger fell into (or at the edges of) this gap: not judged
                     continue
                 if g > 1e-9:
                     gaps.append(g)
+            # "an immediate retry happens only to move on to another advertised address": within one connector run, an attempt that follows a
+            # failed one without any delay needs a reason - the address that answered as another accessory, an announcement, a drop
+            for x, y in zip(run, run[1:]):
+                if x["end"] is None or y["t"] - x["end"] >= 0.1 - 1e-9:
+                    continue
+                if any(x["end"] - 1e-9 <= t <= y["t"] + 1e-9 for t, _ in marks):
+                    continue
+                oc = x["outcome"]
+                if oc and oc[0] == "ok" and getattr(self.net.conns[oc[2]], "behaviour", None) == "wrong-id":
+                    continue
+                if any(x["end"] - 1e-9 <= c[1] <= y["t"] + 1e-9 for c in self.connector_ids[1:]):
+                    continue  # (a new connector was started in between - by a caller after an authentication failure, say: its first attempt is not a retry)
+                if oc == "cancelled" or set(y["hosts"]) < set(x["hosts"]):
+                    continue  # (the same round moving on through the addresses it has not tried yet)
+                out.append(("c10:immediate-retry-without-a-reason", {"after": repr(oc), "failed_at": x["end"], "next_attempt_at": y["t"], "hosts": y["hosts"]}))
+                break
             real = [g for g in gaps if g is not None]
             for g in real:
                 if g < 0.1 - 1e-9:
